@@ -1,3 +1,248 @@
-/- C19 (statements are being added) -/
+/-
+  C19 — the v1→v2 migration rewrites imports and nothing else.
+
+  Part 1 (finite table, proved by `decide +kernel` in the GENERATED file D42/Gen/Migration.lean):
+  every target of the mapping is importable from this package and keeps its name.
+  Part 2 (here): facts about the rewrite model `D42.Migrate` (statement spans come from Python's parser).
+-/
 import D42.Model.Migrate
 import D42.Gen.Migration
+
+namespace D42.Migrate
+
+/-! ### what one rewritten import binds -/
+
+/-- the structured content of the replacement of one `from module import names`:
+    `(module to import from, name, asname)` for every alias, mapped ones first grouped by new module -/
+def replacementBindings (m : Mapping) (module : Option Bytes) (names : List Alias) : List (Bytes × Bytes × Option Bytes) :=
+  names.map (fun a => match (match module with | some md => m.find md a.name | none => none) with
+    | some (newMod, newName) => (newMod, newName, a.asname)
+    | none => (module.getD (bs "None"), a.name, a.asname))
+
+/-- the local name an alias binds -/
+def localName (name : Bytes) (asname : Option Bytes) : Bytes := asname.getD name
+
+/-! ### helper lemmas -/
+
+theorem bs_nl : bs "\n" = [10] := by decide +kernel
+theorem bs_from : bs "from " = [102, 114, 111, 109, 32] := by decide +kernel
+
+theorem foldl_append_acc (l : List Bytes) (acc : Bytes) :
+    l.foldl (· ++ ·) acc = acc ++ l.foldl (· ++ ·) [] := by
+  induction l generalizing acc with
+  | nil => simp
+  | cons x r ih => simp only [List.foldl_cons]; rw [ih (acc ++ x), ih ([] ++ x)]; simp
+
+theorem go_flatten (src cur : Bytes) :
+    (splitLines.go src cur).foldl (· ++ ·) [] = cur.reverse ++ src := by
+  fun_induction splitLines.go src cur with
+  | case1 cur h => simp_all
+  | case2 cur h => simp
+  | case3 r cur ih => simp only [List.foldl_cons]; rw [foldl_append_acc, ih]; simp
+  | case4 r cur _ ih => simp only [List.foldl_cons]; rw [foldl_append_acc, ih]; simp
+  | case5 r cur ih => simp only [List.foldl_cons]; rw [foldl_append_acc, ih]; simp
+  | case6 c r cur _ _ _ ih => rw [ih]; simp
+
+/-- invariant of the line splitter: a line end `\n` can only be the last byte of a line -/
+theorem go_no_inner_newline (src cur : Bytes) (hcur : ∀ x ∈ cur, x ≠ 10) :
+    ∀ ln ∈ splitLines.go src cur, 10 ∉ ln.dropLast := by
+  fun_induction splitLines.go src cur with
+  | case1 cur h => simp
+  | case2 cur h =>
+    intro ln hln
+    simp only [List.mem_singleton] at hln
+    subst hln
+    intro hmem
+    have := List.dropLast_subset _ hmem
+    exact hcur 10 (by simpa using this) rfl
+  | case3 r cur ih =>
+    intro ln hln
+    rcases List.mem_cons.1 hln with h | h
+    · subst h
+      intro hmem
+      simp only [List.reverse_cons, List.append_assoc, List.singleton_append] at hmem
+      rw [show cur.reverse ++ [13, 10] = (cur.reverse ++ [13]) ++ [10] by simp,
+        List.dropLast_concat] at hmem
+      simp only [List.mem_append, List.mem_reverse, List.mem_singleton] at hmem
+      rcases hmem with h | h
+      · exact hcur 10 h rfl
+      · omega
+    · exact ih (by simp) ln h
+  | case4 r cur _ ih =>
+    intro ln hln
+    rcases List.mem_cons.1 hln with h | h
+    · subst h
+      intro hmem
+      simp only [List.reverse_cons, List.dropLast_concat, List.mem_reverse] at hmem
+      exact hcur 10 hmem rfl
+    · exact ih (by simp) ln h
+  | case5 r cur ih =>
+    intro ln hln
+    rcases List.mem_cons.1 hln with h | h
+    · subst h
+      intro hmem
+      simp only [List.reverse_cons, List.dropLast_concat, List.mem_reverse] at hmem
+      exact hcur 10 hmem rfl
+    · exact ih (by simp) ln h
+  | case6 c r cur _ _ h10 ih =>
+    apply ih
+    intro x hx
+    rcases List.mem_cons.1 hx with h | h
+    · subst h; exact fun h => h10 h
+    · exact hcur x h
+
+/-! ### theorems to prove -/
+
+/-- the replacements collected by `rewriteLines` -/
+def reps (m : Mapping) (stmts : List Stmt) : List (Stmt × List Bytes) :=
+  stmts.filterMap (fun st => match st.kind with
+    | .importFrom module level names => if level > 0 then none else some (st, replacementLines m module names)
+    | .other => none)
+
+theorem rewriteLines_eq (m : Mapping) (lines : List Bytes) (stmts : List Stmt) :
+    rewriteLines m lines stmts =
+      if (reps m stmts).isEmpty then none
+      else some (((reps m stmts).reverse.foldl (fun ls r => applyOne ls r.1 r.2) lines).foldl (· ++ ·) []) := rfl
+
+/-- **nothing to do.** Without a top-level absolute from-import the rewriter reports `none` -/
+theorem rewrite_none (m : Mapping) (src : Bytes) (stmts : List Stmt)
+    (h : ∀ st ∈ stmts, match st.kind with | .importFrom _ level _ => level > 0 | .other => True) :
+    rewriteImports m src stmts = none := by
+  have hreps : reps m stmts = [] := by
+    unfold reps
+    rw [List.filterMap_eq_nil_iff]
+    intro st hst
+    have := h st hst
+    split
+    · next md lv nm hk => rw [hk] at this; simp only at this; simp [this]
+    · rfl
+  rw [rewriteImports, rewriteLines_eq, hreps]
+  rfl
+
+/-- and conversely it rewrites as soon as there is one (even if none of its names is mapped) -/
+theorem rewrite_some (m : Mapping) (src : Bytes) (stmts : List Stmt) (st : Stmt) (md : Option Bytes) (names : List Alias)
+    (hst : st ∈ stmts) (hk : st.kind = .importFrom md 0 names) : (rewriteImports m src stmts).isSome = true := by
+  have hmem : (st, replacementLines m md names) ∈ reps m stmts := by
+    unfold reps
+    rw [List.mem_filterMap]
+    exact ⟨st, hst, by rw [hk]; simp⟩
+  have hne : (reps m stmts).isEmpty = false := by
+    cases hr : reps m stmts with
+    | nil => rw [hr] at hmem; cases hmem
+    | cons _ _ => rfl
+  rw [rewriteImports, rewriteLines_eq, hne]
+  rfl
+
+/-- splitting into physical lines loses nothing -/
+theorem splitLines_flatten (src : Bytes) : (splitLines src).foldl (· ++ ·) [] = src := by
+  cases src with
+  | nil => simp [splitLines]
+  | cons c r => simp only [splitLines]; rw [go_flatten]; simp
+
+/-- every line produced by `splitLines` except possibly the last ends in a line end, and no line contains
+    one before its end: lines are numbered exactly as the parser numbers them -/
+theorem splitLines_no_inner_newline (src : Bytes) :
+    ∀ ln ∈ splitLines src, ∀ i, i + 1 < ln.length → ln[i]? = some 10 → False := by
+  intro ln hln i hi hget
+  have hmem : ln ∈ splitLines.go src [] := by
+    cases src with
+    | nil => simp [splitLines] at hln
+    | cons c r => simpa only [splitLines] using hln
+  have hno := go_no_inner_newline src [] (by simp) ln hmem
+  apply hno
+  have hlt : i < ln.dropLast.length := by simp; omega
+  have : ln.dropLast[i]? = some 10 := by
+    rw [List.getElem?_dropLast]; simp [show i < ln.length - 1 by omega, hget]
+  exact List.mem_of_getElem? this
+
+/-- **same local names.** the replacement binds, for every alias of the original import, the same
+    local name — to the v2 target if the name is mapped (names are preserved by the mapping, see
+    `Gen.Migration.mapping_keeps_names`), to the original module otherwise -/
+theorem replacement_binds_same_locals (m : Mapping) (module : Option Bytes) (names : List Alias)
+    (hkeep : ∀ md n t, m.find md n = some t → t.2 = n) :
+    (replacementBindings m module names).map (fun b => localName b.2.1 b.2.2) =
+      names.map (fun a => localName a.name a.asname) := by
+  simp only [replacementBindings, List.map_map]
+  apply List.map_congr_left
+  intro a _
+  simp only [Function.comp]
+  split
+  · next newMod newName heq =>
+    cases module with
+    | none => simp at heq
+    | some md =>
+      have := hkeep md a.name _ heq
+      simp only at this
+      rw [this]
+  · rfl
+
+/-- the text of the replacement lines is exactly the rendering of those bindings grouped by module:
+    every line is `from <module> import <name>[ as <asname>], ...\n` -/
+theorem replacementLines_shape (m : Mapping) (module : Option Bytes) (names : List Alias) :
+    ∀ ln ∈ replacementLines m module names,
+      (bs "from ").isPrefixOf ln = true ∧ ln.getLast? = some 10 := by
+  intro ln hln
+  have key : ∀ x : Bytes, (bs "from ").isPrefixOf (bs "from " ++ x ++ bs "\n") = true ∧
+      (bs "from " ++ x ++ bs "\n").getLast? = some 10 := by
+    intro x
+    constructor
+    · rw [List.isPrefixOf_iff_prefix, List.append_assoc]; exact List.prefix_append _ _
+    · rw [bs_nl]; simp
+  simp only [replacementLines] at hln
+  generalize List.foldl _ _ names = acc at hln
+  rcases List.mem_append.1 hln with h | h
+  · rcases List.mem_map.1 h with ⟨e, _, rfl⟩
+    have := key (e.1 ++ bs " import " ++ joinBytes (bs ", ") e.2)
+    simpa only [List.append_assoc] using this
+  · by_cases hemp : acc.2.isEmpty = true
+    · rw [if_pos hemp] at h; cases h
+    · rw [if_neg hemp, List.mem_singleton] at h
+      subst h
+      have := key (module.getD (bs "None") ++ bs " import " ++ joinBytes (bs ", ") acc.2)
+      simpa only [List.append_assoc] using this
+
+/-- **splice, one statement that owns its lines.** Replacing a statement that has nothing else on its
+    physical lines keeps every line before it and every line after it, unchanged and in order -/
+theorem applyOne_whole_lines (lines : List Bytes) (st : Stmt) (repl : List Bytes)
+    (h1 : 1 ≤ st.lineno) (h2 : st.lineno ≤ st.endLineno) (h3 : st.endLineno ≤ lines.length)
+    (hhead : stripBoth ((lines.getD (st.lineno - 1) []).take st.col) = [])
+    (htail : (((lines.getD (st.endLineno - 1) []).drop st.endCol).dropWhile isSpace).head? ≠ some 59) :
+    applyOne lines st repl = lines.take (st.lineno - 1) ++ repl ++ lines.drop st.endLineno := by
+  have he : st.endLineno - 1 + 1 = st.endLineno := by omega
+  have ht : ((((lines.getD (st.endLineno - 1) []).drop st.endCol).dropWhile isSpace).head? == some 59)
+      = false := by simpa using htail
+  simp only [applyOne, hhead, ht, he]
+  simp
+
+/-- **reverse order keeps earlier coordinates valid.** Applying a replacement to a later statement
+    does not touch any line before that statement's first line — whether or not it shares its lines -/
+theorem applyOne_preserves_prefix (lines : List Bytes) (st : Stmt) (repl : List Bytes)
+    (h : st.lineno - 1 ≤ lines.length) :
+    (applyOne lines st repl).take (st.lineno - 1) = lines.take (st.lineno - 1) := by
+  simp only [applyOne, List.append_assoc]
+  exact List.take_left' (by rw [List.length_take]; omega)
+
+/-- The statement of `applyOne_preserves_suffix` as first written (no hypothesis on `endLineno`) is
+    false: with `endLineno = 0` the model drops `lines.drop 1`, not `lines.drop 0`. -/
+theorem applyOne_preserves_suffix_counterexample :
+    ¬ (∀ (lines : List Bytes) (st : Stmt) (repl : List Bytes),
+      ∃ mid, applyOne lines st repl = lines.take (st.lineno - 1) ++ mid ++ lines.drop st.endLineno ∧
+        (mid = repl ∨ mid.length = 1)) := by
+  intro hall
+  obtain ⟨mid, heq, _⟩ := hall [[1], [2]] ⟨1, 0, 0, 0, .other⟩ []
+  have hlen := congrArg List.length heq
+  simp [applyOne, stripBoth, isSpace] at hlen
+
+/-- and the lines after its last line follow the replacement unchanged
+    (corrected: needs `1 ≤ st.endLineno`, which always holds for parser output — lines are 1-based) -/
+theorem applyOne_preserves_suffix (lines : List Bytes) (st : Stmt) (repl : List Bytes)
+    (hend : 1 ≤ st.endLineno) :
+    ∃ mid, applyOne lines st repl = lines.take (st.lineno - 1) ++ mid ++ lines.drop st.endLineno ∧
+      (mid = repl ∨ mid.length = 1) := by
+  have he : st.endLineno - 1 + 1 = st.endLineno := by omega
+  simp only [applyOne, he]
+  split
+  · exact ⟨_, rfl, Or.inr rfl⟩
+  · exact ⟨_, rfl, Or.inl rfl⟩
+
+end D42.Migrate
